@@ -76,13 +76,21 @@ def scenarios():
 
 def generate(seeds=(1, 2, 3), tier='quick'):
     g = GenFile(PID)
-    stats, trees, ctxs = {}, {}, {}
+    stats, trees, ctxs, fnodes = {}, {}, {}, {}
     for name, scen in scenarios().items():
         sw, outs, st = tie_check(scen, seeds)
         stats[name] = st
         trees[name] = sw.tree(outs[0])
         ctxs[name] = sw.ctx
+        fnodes[name] = outs[0].cols[0]
         g.add_def(name, trees[name], f'traced from /repo: scenario {name}; variables {sw.ctx.vars}; symbols {sw.ctx.syms}')
+    # operation-order model: the initial state is reproduced EXACTLY at t = 0 in every arithmetic with the IEEE-754 identities
+    from .. import fex as FX
+    FX.exact_part(g, PID, fnodes, ctxs, [
+        ('approx1d_initial_exact', 'approx1d', [('t', 0)], FX.app_of('u0', 'x'), 'SingleNetworkApproximator1DSpatialTemporal: u(x, 0) is exactly u0(x)'),
+        ('approx2d_initial_exact', 'approx2d', [('t', 0)], FX.app_of('u0', 'x', 'y'), 'SingleNetworkApproximator2DSpatialTemporal, first-order IC: u(x, y, 0) is exactly u0(x, y)'),
+        ('approx2d_second_initial_exact', 'approx2d_second', [('t', 0)], FX.app_of('u0', 'x', 'y'),
+         'SingleNetworkApproximator2DSpatialTemporal, second-order IC: u(x, y, 0) is exactly u0(x, y)')])
 
     def fn(name, s, vs):
         c = ctxs[name]
@@ -685,8 +693,18 @@ def check(tier, seed):
             print('forbidden tokens in Lean sources:', hits)
             rep.finish()
             return 2
+        for part in getattr(g, 'parts', []):
+            part.write(os.path.join(LEAN, 'NdeVerif', 'Gen', f'{part.pid}.lean'))
+            ok2, _ = kernel_phase(rep, f'NdeVerif.Gen.{part.pid}', part.ns, [o.name for o in part.obligations], tag=part.pid)
+            okA = okA and ok2
+            if part.failures:
+                cov.setdefault('certificates_not_found', []).extend(part.failures)
+        if getattr(g, 'exact_info', None):
+            cov['operation_order_model'] = g.exact_info
+            if g.exact_info.get('ieee_identities_sampled', {}).get('failed'):
+                broken.append(dict(kind='trusted-base', detail='an identity of Arith.Exact does not hold in torch on this machine'))
         if g.failures:
-            cov['certificates_not_found'] = g.failures
+            cov.setdefault('certificates_not_found', []).extend(g.failures)
         if not okA:
             broken.append(dict(kind='proof', part='approximators (generated)', failed=dict(rep.failed)))
     axA = set(rep.coverage.get('axioms_seen', []))
